@@ -141,9 +141,13 @@ def array_ufunc(ufunc, method, inputs, kwargs):
             while isinstance(node, ak.layout.RegularArray):
                 shape.append(node.size)
                 node = node.content
+            # RegularArrays may have more content than they use: only the first prod(shape) items are theirs
+            numitems = 1
+            for dim in shape:
+                numitems *= dim
             if node.format.upper().startswith("M"):
                 nparray = ak.nplike.of(node).asarray(node.view_int64).view(node.format)
-                nparray = nparray.reshape(tuple(shape) + nparray.shape[1:])
+                nparray = nparray[:numitems].reshape(tuple(shape) + nparray.shape[1:])
                 return ak.layout.NumpyArray(
                     nparray,
                     node.identities,
@@ -151,7 +155,7 @@ def array_ufunc(ufunc, method, inputs, kwargs):
                 )
             else:
                 nparray = ak.nplike.of(node).asarray(node)
-                nparray = nparray.reshape(tuple(shape) + nparray.shape[1:])
+                nparray = nparray[:numitems].reshape(tuple(shape) + nparray.shape[1:])
                 return ak.layout.NumpyArray(
                     nparray,
                     node.identities,
